@@ -1,0 +1,18 @@
+//go:build verif
+
+package service
+
+import "github.com/icon-project/goloop/module"
+
+// VerifLocatorManager returns the locator manager behind a transition made
+// by NewInitTransition/NewTransition (verification harness only).
+func VerifLocatorManager(tr module.Transition) module.LocatorManager {
+	t, ok := tr.(*transition)
+	if !ok || t.transitionContext == nil {
+		return nil
+	}
+	if m, ok := t.tim.(*txIDManager); ok {
+		return m.lm
+	}
+	return nil
+}
